@@ -98,6 +98,22 @@ def viewFieldsOfTag : String → Option (List String)
   | "bt" => some MsgBridgeTokenClaim.viewFields | "osu" => some MsgOracleSetUpdatedClaim.viewFields
   | _ => none
 
+/-- the code that executes a claim of this type, as the REGENERATED instruction list (`Gen/C03.lean` `flow_<tag>`, compiled from
+the handler's body by go/extract/c03flow.go) -/
+def flow : AnyClaim → List FInstr
+  | stf _ => FxVerif.Gen.C03.flow_stf | bc _ => FxVerif.Gen.C03.flow_bc | bcr _ => FxVerif.Gen.C03.flow_bcr
+  | ste _ => FxVerif.Gen.C03.flow_ste | bt _ => FxVerif.Gen.C03.flow_bt | osu _ => FxVerif.Gen.C03.flow_osu
+
+/-- the keeper function(s) that flow was compiled from -/
+def flowFns : AnyClaim → List String
+  | stf _ => FxVerif.Gen.C03.flowFns_stf | bc _ => FxVerif.Gen.C03.flowFns_bc | bcr _ => FxVerif.Gen.C03.flowFns_bcr
+  | ste _ => FxVerif.Gen.C03.flowFns_ste | bt _ => FxVerif.Gen.C03.flowFns_bt | osu _ => FxVerif.Gen.C03.flowFns_osu
+
+/-- executing claim `c` in state `st`: its type's flow interpreted over ITS handler view, for any meaning `sem` of the opaque
+expressions (the real keepers), with `fuel` steps -/
+def runFlow {σ ν : Type} (sem : FSem σ ν) (fuel : Nat) (st : σ) (c : AnyClaim) : FResult σ ν :=
+  exec sem c.flow c.handlerView fuel 0 {} st
+
 /-- the path the release BEFORE `b7515bc` hashed for this claim (three formats changed; see `Model/C03.lean`) -/
 def legacyPath : AnyClaim → Str
   | .bc c => legacyBridgeCallPath c
